@@ -492,6 +492,12 @@ def gen(rng, tier, index):
     if rng.random() < 0.4:
         base = rng.choice([len(body), len(wire_body), len(body), 0])
         mbs = max(1, base + rng.choice([-1, 0, 0, 1, 1, -base // 2, base, 5]))
+        # the two smallest limits: 0 = "no body bytes at all" (empty bodies are still fine)
+        r0 = rng.random()
+        if r0 < 0.15:
+            mbs = 0
+        elif r0 < 0.22:
+            mbs = 1
     mhs = None
     if rng.random() < 0.2:
         h = bounds[[p[0] for p in parts].index("blank")] if any(p[0] == "blank" for p in parts) \
@@ -522,8 +528,8 @@ def validate(scn):
     try:
         s = scn["stream"]
         bytes.fromhex(s[4:])
-        if scn["knobs"].get("max_body_size") is not None and scn["knobs"]["max_body_size"] < 1:
-            return False  # 0 would be a legal limit but reads like "unlimited" in a replay
+        if scn["knobs"].get("max_body_size") is not None and scn["knobs"]["max_body_size"] < 0:
+            return False
         return (s.startswith("hex:") and isinstance(scn["knobs"], dict)
                 and scn["knobs"].get("method") in ("GET", "HEAD", "POST")
                 and all(isinstance(x, list) and len(x) == 2 for x in scn["segs"])
@@ -932,6 +938,12 @@ def _run(scn, full_log=False):
         off += ln
     if mbs is not None:
         probe("max_body_size_set")
+        if mbs == 0:
+            probe("max_body_size_zero")
+            if ref.kind == "ok" and not ref.body:
+                probe("max_body_size_zero_empty_body_ok")
+            if ref.why in ("body_too_large", "decoded_body_too_large"):
+                probe("max_body_size_zero_refuses_body")
     faults = st["faults"]
     st["probes"].update(probes)
     interesting = (ref.kind != "ok" or bool(ref.body) or bool(ref.interim) or bool(ref.either)
